@@ -392,6 +392,26 @@ func Needles(secret string) []string {
 	return out
 }
 
+// MinScanLen is the shortest byte string searched for in captured requests.
+// Shorter secrets occur by chance (in salts, uuids, other tokens), so for them
+// the whole token "v2/<uuid>/<secret>" is searched instead when that is long
+// enough, and nothing otherwise (the structural checks still apply).
+const MinScanLen = 12
+
+// ScanNeedle returns the string whose presence in a forwarded request means
+// that the protected secret of tk was disclosed.
+func ScanNeedle(tk Token, protected string) (string, bool) {
+	switch {
+	case protected == "":
+		return "", false
+	case len(protected) >= MinScanLen:
+		return protected, true
+	case tk.Kind == KindV2 && len(tk.UUID) >= 20:
+		return "v2/" + tk.UUID + "/" + tk.Secret, true
+	}
+	return "", false
+}
+
 var reB64 = regexp.MustCompile(`[A-Za-z0-9+/_-]{8,}={0,2}`)
 
 // Views returns raw plus the decodings of every base64-looking run in it
